@@ -217,7 +217,9 @@ def confirm_crashes(ctx, pairs, preds=None):
 def run_batches(ctx, batches, preds, mc_runs, nontrivial=lambda o, v: True, sample=lambda o, v: v.get('cyclic'), post=None):
     vlib.build_worker(ctx)
     for (genset, cont, skip, label) in mc_runs:
-        mc_expander(ctx, gen(ctx, *genset), cont, skip, label)
+        # the operational model is checked on the enumerated graphs and on the seeded random ones the real code runs
+        casefile = random_graphs(ctx, *genset[1:]) if genset[0] == 'random' else gen(ctx, *genset)
+        mc_expander(ctx, casefile, cont, skip, label)
     rep = vlib.Report(ctx)
     drift = 0
     # the thorough tier runs millions of observations: one batch at a time (observe, judge, account, forget)
@@ -305,8 +307,10 @@ def s1_batches(ctx, opts, skip_collide=False):
 def s1_mc(ctx):
     if ctx.tier == 'thorough':
         return [(G_N3_D3_WF, False, False, 'N3D3_strict_full'), (G_N4_S_WF, False, False, 'N4S_strict_full'),
-                (G_N4_SP_WF, False, False, 'N4SP_strict_full')]
-    return [(G_N3_ALL_WF, False, False, 'N3_strict_full'), (G_N4_S_WF, False, False, 'N4S_strict_full')]
+                (G_N4_SP_WF, False, False, 'N4SP_strict_full'), (('random', 14, 4, 3000), False, False, 'rand14_strict_full'),
+                (('random', 24, 5, 600), False, False, 'rand24_strict_full')]
+    return [(G_N3_ALL_WF, False, False, 'N3_strict_full'), (G_N4_S_WF, False, False, 'N4S_strict_full'),
+            (('random', 10, 3, 240), False, False, 'rand10_strict_full')]
 
 
 def check_c02(ctx):
@@ -380,7 +384,9 @@ def check_c04(ctx):
                    Batch(G_N4_SP_WF if ctx.seed % 2 else G_N4_SR_WF, ['sibling'], ['000'], [sd['rot']], reps=1,
                          entry='ExpandParameter:relbase' if ctx.seed % 2 else 'ExpandResponse:relbase', watchdog='4s')]
         mcs = [(G_N3_ALL_ANY, False, False, 'any_strict_full'), (G_N3_ALL_ANY, True, True, 'any_cont_skip'),
-               (G_N4_S_WF, False, False, 'N4S_strict_full')]
+               (G_N4_S_WF, False, False, 'N4S_strict_full'), (('random', 14, 3, 300, True), False, False, 'rand14_strict_full')]
+    if ctx.tier == 'thorough':
+        mcs += [(('random', 16, 4, 400, True), False, False, 'rand16_strict_full'), (('random', 40, 6, 20, True), True, False, 'rand40_cont_full')]
     rep = run_batches(ctx, batches, ['c04', 'c04work'], mcs, nontrivial=lambda o, v: v['cyclic'] or not v['wf'],
                       sample=lambda o, v: not v['wf'])
     return rep.finish(
@@ -428,7 +434,10 @@ def check_c08(ctx):
                          caches=FOREIGN_CACHES),
                    # larger graphs (seeded random): several unresolvable and resolvable refs side by side, in other documents too
                    Batch(('random', 9, 3, 400, True), ['sibling+subdir', 'parent+remote'], modes, [sd['rot']], reps=1, spell=sd['spell'])]
-        mcs = [(G_N3_ALL_ANY, False, False, 'any_strict_full'), (G_N3_ALL_ANY, True, False, 'any_cont_full')]
+        mcs = [(G_N3_ALL_ANY, False, False, 'any_strict_full'), (G_N3_ALL_ANY, True, False, 'any_cont_full'),
+               (('random', 9, 3, 400, True), True, False, 'rand9_cont_full'), (('random', 9, 3, 400, True), False, False, 'rand9_strict_full')]
+    if ctx.tier == 'thorough':
+        mcs += [(('random', 9, 3, 4000, True), True, False, 'rand9k_cont_full'), (('random', 16, 4, 400, True), False, False, 'rand16_strict_full')]
     rep = run_batches(ctx, batches, preds, mcs, nontrivial=lambda o, v: v['nbad'] > 0 or len(o['failurl']) > 0,
                       sample=lambda o, v: v['nbad'] > 0)
     return rep.finish(
